@@ -111,6 +111,12 @@ func pivotOperator(_ *dataTreeNavigator, context Context, _ *ExpressionNode) (Co
 		case "!!seq":
 			pivot = pivotSequences(candidate)
 		case "!!map":
+			// the tag can be set by hand (`tag = "!!map"`): only real maps have key/value pairs
+			for _, row := range candidate.Content {
+				if row.Kind != MappingNode {
+					return Context{}, fmt.Errorf("can only pivot elements of !!seq or !!map types, received a %v node tagged !!map", KindString(row.Kind))
+				}
+			}
 			pivot = pivotMaps(candidate)
 		default:
 			return Context{}, fmt.Errorf("can only pivot elements of !!seq or !!map types, received %v", tag)
